@@ -6,6 +6,7 @@ numeric quantifiers.  parse -> unparse -> parse -> unparse is run by the impleme
 (MC_C09, RoundTripStep) requires: no exception, the implementation's own equality of both formulas,
 identical texts, and equal verdicts of both projected formulas on every enumerated tree."""
 import json
+import re
 import os
 import random
 import shutil
@@ -155,7 +156,8 @@ def run(chk, units=None, jobs=None):
                 sig = {"clause": verdict if verdict != "req-failed" else "+".join(sorted(reqs.get(iid, []))),
                        "exc": exc, "family": j["fam"].split("-")[0] + ("-" + j["fam"].split("-", 1)[1] if j["fam"].startswith(("smt", "string", "free", "mexpr", "pred")) else "")}
                 u1 = it.get("u1") or ""
-                sig["feature"] = "str.<" if "(str.< " in u1 else "ite" if "(if " in u1 else ""
+                sig["feature"] = ("str.<" if "(str.< " in u1 else "ite" if "(if " in u1 else
+                                  "not-inside-s-expression" if re.search(r"\((?:and|or|xor|=>|=|ite) [^\n]*\(not ", u1) else "")
                 chk.mismatch(sig, {"unit": j["unit"], "family": j["fam"], "source": j["src"], "unparsed": it.get("u1"), "unparsed_again": it.get("u2"),
                                    "exc": it["exc"], "job": j})
         if n != sum(len(c) for _, c in judge_jobs):
